@@ -10,6 +10,8 @@ open Acra Acra.Py Acra.Lemmas.SrcTieGolay
 
 theorem ok_bind {α β : Type} (a : α) (f : α → R β) : ((Except.ok a : R α) >>= f) = f a := rfl
 
+theorem pair_eta {α β : Type} (p : α × β) : (p.1, p.2) = p := rfl
+
 theorem setItem_natCast (T : List Int) (i : Nat) (v : Int) (h : i < T.length) :
     setItem T (i : Int) v = .ok (T.set i v) := by
   unfold setItem
@@ -111,6 +113,12 @@ theorem foldlM_range {σ : Type} (N : Nat) (P : σ → Prop) (step : σ → Int 
   have := key (List.range N) (fun n hn => List.mem_range.mp hn) st hP
   simpa [Py.range] using this
 
+theorem foldlM_range' {σ : Type} (N : Nat) (M : Int) (hM : M = (N : Int)) (P : σ → Prop) (step : σ → Int → R σ)
+    (g : σ → Nat → σ) (h : ∀ st n, n < N → P st → step st (n : Int) = .ok (g st n) ∧ P (g st n)) :
+    ∀ st, P st → List.foldlM step st (Py.range M) = .ok ((List.range N).foldl g st) ∧
+      P ((List.range N).foldl g st) := by
+  subst hM; exact foldlM_range N P step g h
+
 /-! ### the first loop of `_initgolaydecode`: one cell of the three tables -/
 
 /-- a loop on a triple whose components evolve independently is the triple of the three loops -/
@@ -183,5 +191,121 @@ theorem set_fold4095 (x : Nat) :
     List.foldl (fun (a : Int) (i : Int) => if band (shr (x : Int) (11 - i)) 1 ≠ 0 then (4095 : Int) else a) 0 (Py.range 12)
     = ((Model.Golay.initEntry Gen.Golay.H_P x (0, 0, 0)).2.2 : Nat) := by
   rw [initEntry_eq]; exact set_fold x 4095 0
+
+/-! ### the model's tables as Python lists -/
+
+theorem setItem_zero (T : List Int) (v : Int) (h : 0 < T.length) : setItem T 0 v = .ok (T.set 0 v) :=
+  setItem_natCast T 0 v h
+
+theorem ofFn_eq_map_range {α : Type} (N : Nat) (F : Nat → α) :
+    List.ofFn (n := N) (fun x => F x.val) = (List.range N).map F := by
+  apply List.ext_getElem
+  · simp
+  · intro i h1 h2; simp
+
+theorem pyList_ofFn (F : Nat → Nat) :
+    pyList (Array.ofFn (n := Gen.Golay.GOLAY_SIZE) fun x => F x.val) = (List.range 4096).map (fun x => ((F x : Nat) : Int)) := by
+  unfold pyList
+  rw [Array.toList_ofFn, ofFn_eq_map_range, List.map_map]; rfl
+
+theorem pyList_set (T : Array Nat) (i v : Nat) : pyList (T.setIfInBounds i v) = (pyList T).set i (v : Int) := by
+  unfold pyList
+  rw [Array.toList_setIfInBounds, List.map_set]; rfl
+
+/-- the writes of the triple loop on the Python lists -/
+def applyW (st : List Int × List Int) (t : Nat × Nat × Nat) : List Int × List Int :=
+  (st.1.set (Model.Golay.writeOf t).1 ((Model.Golay.writeOf t).2.1 : Nat),
+   st.2.set (Model.Golay.writeOf t).1 ((Model.Golay.writeOf t).2.2 : Nat))
+
+theorem pyList_applyWrites (ts : List (Nat × Nat × Nat)) : ∀ (ce : Array Nat × Array Nat),
+    ts.foldl applyW (pyList ce.1, pyList ce.2) =
+      (pyList (Model.Golay.applyWrites (ts.map Model.Golay.writeOf) ce).1,
+       pyList (Model.Golay.applyWrites (ts.map Model.Golay.writeOf) ce).2) := by
+  induction ts with
+  | nil => intro ce; rfl
+  | cons t ts ih =>
+    intro ce
+    rw [List.foldl_cons, List.map_cons]
+    unfold Model.Golay.applyWrites
+    rw [List.foldl_cons]
+    have := ih (ce.1.setIfInBounds (Model.Golay.writeOf t).1 (Model.Golay.writeOf t).2.1,
+      ce.2.setIfInBounds (Model.Golay.writeOf t).1 (Model.Golay.writeOf t).2.2)
+    unfold Model.Golay.applyWrites at this
+    rw [← this]
+    simp only [applyW, pyList_set]
+
+theorem pyList_applyWrites' (ts : List (Nat × Nat × Nat)) (c e : Array Nat) :
+    ts.foldl applyW (pyList c, pyList e) =
+      (pyList (Model.Golay.applyWrites (ts.map Model.Golay.writeOf) (c, e)).1,
+       pyList (Model.Golay.applyWrites (ts.map Model.Golay.writeOf) (c, e)).2) :=
+  pyList_applyWrites ts (c, e)
+
+/-- every syndrome is a 12-bit value (so the stores of the triple loop never leave the tables) -/
+theorem rowXorAcc_lt (rows : List Nat) (hr : ∀ r ∈ rows, r < 2 ^ 12) (x : Nat) :
+    ∀ s, s < 2 ^ 12 → Model.Golay.rowXorAcc rows x s < 2 ^ 12 := by
+  induction rows with
+  | nil => intro s hs; exact hs
+  | cons r rs ih =>
+    intro s hs
+    unfold Model.Golay.rowXorAcc
+    apply ih (fun r' hr' => hr r' (List.mem_cons_of_mem _ hr'))
+    split
+    · exact Nat.xor_lt_two_pow hs (hr r (List.mem_cons_self ..))
+    · exact hs
+
+theorem synTable_getD_lt (i : Nat) : Model.Golay.synTable.getD i 0 < 4096 := by
+  unfold Model.Golay.synTable
+  rw [Array.getD_eq_getD_getElem?]
+  by_cases h : i < Gen.Golay.GOLAY_SIZE
+  · rw [Array.getElem?_ofFn, dif_pos h]
+    simp only [Option.getD_some]
+    rw [initEntry_eq]
+    exact rowXorAcc_lt Gen.Golay.H_P (by decide) i 0 (by decide)
+  · rw [Array.getElem?_ofFn, dif_neg h]; decide
+
+theorem syndrome_lt (v : Nat) : Model.Golay.syndrome v < 4096 := by
+  unfold Model.Golay.syndrome
+  have h2 : (v >>> 12) &&& 0xfff < 2 ^ 12 := Nat.lt_of_le_of_lt Nat.and_le_right (by decide)
+  exact Nat.xor_lt_two_pow (n := 12) (synTable_getD_lt _) h2
+
+/-! ### `_onesincode`: the string idiom `bin(code)[2:size+2].count('1')` -/
+
+theorem binDigitsAux_eq : ∀ (fuel n : Nat) (acc : List Bool),
+    Py.binDigitsAux fuel n acc = Model.Golay.binDigitsAux fuel n acc := by
+  intro fuel
+  induction fuel with
+  | zero => intro n acc; rfl
+  | succ f ih =>
+    intro n acc
+    unfold Py.binDigitsAux Model.Golay.binDigitsAux
+    split
+    · rfl
+    · exact ih _ _
+
+/-- `bin(n)` for a non-negative int: `0b` and the model's digit list -/
+theorem bin_natCast (n : Nat) :
+    Py.bin (n : Int) = '0' :: 'b' :: (Model.Golay.binDigits n).map (fun b => if b then '1' else '0') := by
+  unfold Py.bin Model.Golay.binDigits
+  have h0 : ¬ ((n : Int) < 0) := by omega
+  rw [if_neg h0, Int.natAbs_natCast, binDigitsAux_eq]
+  rfl
+
+theorem count_bits (l : List Bool) :
+    (l.map (fun b => if b then '1' else '0')).count '1' = l.count true := by
+  induction l with
+  | nil => rfl
+  | cons b l ih =>
+    cases b
+    · rw [List.map_cons, List.count_cons, List.count_cons, ih]; rfl
+    · rw [List.map_cons, List.count_cons, List.count_cons, ih]; rfl
+
+theorem onesincode_tie (code size : Nat) :
+    strCount '1' (sliceI (Py.bin (code : Int)) 2 ((size : Int) + 2)) = ((Model.Golay.onesincode code size : Nat) : Int) := by
+  unfold strCount sliceI slice Model.Golay.onesincode
+  rw [bin_natCast]
+  have h2 : ((size : Int) + 2).toNat = size + 2 := by omega
+  rw [h2, toNat_lit]
+  simp only [List.take_succ_cons, List.drop_succ_cons, List.drop_zero]
+  rw [← List.map_take, count_bits]
 
 end Acra.Lemmas.SrcTieGolayTables
